@@ -75,6 +75,22 @@ def forward(spec, make_monitors, order=None, sim_kw=None, keep_events=False, pre
     return m, tr, err
 
 
+def resimulate(m, spec, make_monitors, sim_kw=None):
+    """simulate() called again on an already simulated model, under fresh monitors."""
+    started = M.StartedSnap()
+    mons = [started] + list(make_monitors(started))
+    tr = I.Tracer(mons)
+    err = None
+    with I.tracing(tr):
+        try:
+            B.run(m.project, spec, **(sim_kw or {}))
+        except Exception as e:
+            err = exc_info(e)
+        if err is None:
+            tr.end(m.project)
+    return tr, err
+
+
 def simulate(project, spec, tr=None, **kw):
     """project.simulate under an (optional) tracer; returns error info or None."""
     try:
